@@ -400,6 +400,9 @@ func (h *harness) judge(c Case, reply string, count bool) verdict {
 		v.real = "panic: " + o.Panic
 	}
 	gw := goOracle(c, o, elems, valid)
+	if gw == "" && c.Mode == 1 && valid {
+		gw = h.parserOracle(c, o)
+	}
 	if gw == "" && c.Mode == 1 {
 		c0 := c
 		c0.Mode = 0
@@ -921,7 +924,9 @@ func main() {
 	run.Note("exhaustive parts: dense^≤%d, \"·string^≤%d, \"\\u·hex^4·\", \"\"\"·block^≤%d, \"\"\"·indent^≤%d·\"\"\", number^≤%d, lineterm^≤%d, name-boundary^≤%d, ascii^≤2, a·ascii·b, backslash·ascii in both string kinds, \\u·hexedge^4, {,\",#,\"\"\",\"\\,\"\"\"\\}·srcedge^≤3 (%d texts)",
 		run.Scale(3, 4), run.Scale(5, 6), run.Scale(5, 6), run.Scale(7, 9), run.Scale(5, 6), run.Scale(5, 7), run.Scale(4, 5), b.n)
 
-	// 13. layouts: lexeme sequences under two random layouts each (layout.go)
+	// 13. parser route: valid documents with lexical junk between any two tokens and after the last one (parse.go)
+	h.runJunkDocuments(b)
+	// 13b. layouts: lexeme sequences under two random layouts each (layout.go)
 	h.runLayouts(b, run.Scale(6000, 80000))
 	// 14. random longer texts
 	for i, n := 0, run.Scale(20000, 300000); i < n; i++ {
